@@ -222,6 +222,9 @@ class MinFlowDecomp(pathmodel.AbstractPathModelDAG): # Note that we inherit from
         Note:
             This overloads the `solve()` method from `AbstractPathModelDAG` class.
         """
+        # A new run starts: what an earlier run on this object proved does not count for this one
+        self._is_solved = False
+        self._solution = None
         self.solve_time_start = time.perf_counter()
 
         if self.optimization_options.get("optimize_with_guessed_weights", MinFlowDecomp.optimize_with_given_weights):            
